@@ -5,12 +5,14 @@
     instrumented subject library, reference-model stream comparison; the same
     driver source serves all configurations of a model, so the user-facing API
     and behaviour may not depend on language or F_CFI.
+(1b) fortran_generic variants and assumed-rank arguments (vf/exec/generic_e2e.py): every variant
+    called through the generic name and through its specific name.
 (2) upstream executed Fortran tests (regression/run/*/main.f with FRUIT
     assertions, listed in the upstream Makefile) against wrappers generated
     from the current tree, also with debug toggled.
 """
 from .. import core
-from ..exec import callcheck, structs_e2e, upstream
+from ..exec import callcheck, generic_e2e, structs_e2e, upstream
 
 LEVEL = "exploration"
 
@@ -45,6 +47,9 @@ def run(ctx):
     callcheck.run_engine(ctx, "fortran", [None], 10 if quick else 150, ["c++"], with_class=True, with_overloads=False, nfunc=(0, 2))
     callcheck.run_template_family(ctx, "fortran", 3 if quick else 40, [None, {"F_CFI": True}])
     structs_e2e.run_structs(ctx, "fortran", 6 if quick else 120)
+    # fortran_generic variants (coercion, scalar-or-array, with a string argument) and assumed-rank arguments,
+    # each called through the documented generic name (fortran.rst "Generic Interfaces")
+    generic_e2e.run_generics(ctx, 3 if quick else 60, [None, {"F_CFI": True}] if quick else [None, {"F_CFI": True}, {"debug": True}])
     names = upstream.target_lists()["fortran"]
     jobs = [(n, None) for n in names]
     if not quick:
@@ -66,4 +71,6 @@ def replay(ctx, rec):
         return
     if "struct_case" in c:
         return structs_e2e.replay_case(ctx, rec)
+    if "generic_case" in c:
+        return generic_e2e.replay_case(ctx, rec)
     callcheck.replay_case(ctx, rec)
